@@ -439,3 +439,60 @@ M("C09", "extend-marker-hits-unchanged", F, "", "", "C09.R4",
                                     "candidates.extend(iter_find_needle(fh, cls.EOF_SHELLCODE_MARKER, start_offset=0, max_offset=maxrange))")), (F, COUNT_CALL, "votes.most_common()")])
 M("C09", "votes-deduplicated-before-counting", F, "", "", "C09.R4",
   edits=[(F, CAND, CAND_EXT.replace("        votes = collections.Counter()\n", "        candidates = list(dict.fromkeys(candidates))\n        votes = collections.Counter()\n")), (F, COUNT_CALL, "votes.most_common()")])
+
+# ------------------------------------------------------------------------------------------------ state carried across calls (R6)
+# a cached rolling key ("saves a seek + read per read() call"): correct only if every movement of the underlying cursor
+# resets or re-establishes it
+INIT_TAIL = "        self.nonced_filesize = self.fh.read(4)\n"
+RN_HEAD = "        pos = self.fh.tell()\n        try:\n"
+SEEK_HEAD = "    def seek(self, offset, whence=io.SEEK_SET):\n        if whence == io.SEEK_SET:\n"
+READ_TAIL = ("        if n > 0 and len(data) > n:\n            # data is decoded in 4-byte words, give back what was not asked for\n"
+             "            self.fh.seek(n - len(data), io.SEEK_CUR)\n            data = data[:n]\n        return data\n")
+KC_INIT = (F, INIT_TAIL, INIT_TAIL + "        self._key = None\n")
+KC_RN = (F, RN_HEAD, "        if self._key is not None:\n            return self._key\n" + RN_HEAD)
+KC_SEEK = (F, SEEK_HEAD, "    def seek(self, offset, whence=io.SEEK_SET):\n        self._key = None\n        if whence == io.SEEK_SET:\n")
+READ_TAIL_RESET = ("        self._key = nonce\n        if n > 0 and len(data) > n:\n            self.fh.seek(n - len(data), io.SEEK_CUR)\n            data = data[:n]\n"
+                   "            self._key = None\n        return data\n")
+READ_TAIL_LAST = ("        if n > 0 and len(data) > n:\n            self.fh.seek(n - len(data), io.SEEK_CUR)\n            data = data[:n]\n            nonce = None\n"
+                  "        self._key = nonce\n        return data\n")
+T("C09", "twin-key-cache-reset-after-giveback", F, "", "", edits=[KC_INIT, KC_RN, KC_SEEK, (F, READ_TAIL, READ_TAIL_RESET)])
+T("C09", "twin-key-cache-stored-last-none-when-cut", F, "", "", edits=[KC_INIT, KC_RN, KC_SEEK, (F, READ_TAIL, READ_TAIL_LAST)])
+T("C09", "twin-key-cache-giveback-through-own-seek", F, "", "",
+  edits=[KC_INIT, KC_RN, KC_SEEK, (F, READ_TAIL, "        self._key = nonce\n        if n > 0 and len(data) > n:\n            self.seek(n - len(data), io.SEEK_CUR)\n            data = data[:n]\n        return data\n")])
+M("C09", "key-cache-kept-by-relative-seek", F, "", "", "C09.R6",
+  edits=[KC_INIT, KC_RN, (F, SEEK_HEAD, SEEK_HEAD + "            self._key = None\n"), (F, READ_TAIL, READ_TAIL_RESET)])
+M("C09", "key-cache-seek-never-resets", F, "", "", "C09.R6", edits=[KC_INIT, KC_RN, (F, READ_TAIL, READ_TAIL_RESET)])
+M("C09", "key-cache-stored-per-word-giveback-keeps-it", F, "", "", "C09.R6",
+  edits=[KC_INIT, KC_RN, KC_SEEK, (F, "            nonce = chunk\n            if n > 0 and len(data) >= n:", "            nonce = chunk\n            self._key = chunk\n            if n > 0 and len(data) >= n:")])
+M("C09", "key-cache-stale-word-stored-after-giveback", F, "", "", "C09.R6",
+  edits=[KC_INIT, KC_RN, KC_SEEK, (F, READ_TAIL, READ_TAIL.replace("        return data\n", "        self._key = nonce\n        return data\n"))])
+# a cache filled by read_nonce() itself (the word it just fetched) and never dropped when the caller then reads on
+M("C09", "key-cache-filled-by-read-nonce-never-dropped", F, "", "", "C09.R6",
+  edits=[KC_INIT, KC_SEEK, (F, RN_HEAD, "        if self._key is not None:\n            return self._key\n" + RN_HEAD),
+         (F, "        nonce = self.read_nonce()\n        while True:", "        nonce = self._key = self.read_nonce()\n        while True:")])
+# state that is not position dependent, or never read back on the read path
+T("C09", "twin-read-counter-shown-in-repr", F, "", "",
+  edits=[(F, INIT_TAIL, INIT_TAIL + "        self._reads = 0\n"), (F, "        nonce = self.read_nonce()\n        while True:", "        self._reads += 1\n        nonce = self.read_nonce()\n        while True:"),
+         (F, 'return f"<XorEncodedFile fh={self.fh}, nonce_offset={self.nonce_offset}>"', 'return f"<XorEncodedFile fh={self.fh}, nonce_offset={self.nonce_offset}, reads={self._reads}>"')])
+T("C09", "twin-lazy-decoded-size-memo", F, "", "",
+  edits=[(F, INIT_TAIL, INIT_TAIL + "        self._size = None\n"),
+         (F, "    def tell(self):\n", "    def decoded_size(self):\n        if self._size is None:\n            self._size = int.from_bytes(xor(self.initial_nonce, self.nonced_filesize), \"little\")\n"
+                                      "        return self._size\n\n    def tell(self):\n")])
+M("C09", "key-cache-stored-after-giveback-through-own-seek", F, "", "", "C09.R6",
+  edits=[KC_INIT, KC_RN, KC_SEEK, (F, READ_TAIL, "        if n > 0 and len(data) > n:\n            self.seek(n - len(data), io.SEEK_CUR)\n            data = data[:n]\n        self._key = nonce\n        return data\n")])
+# a cache that remembers the position it belongs to and is checked against the current position where it is used: correct
+# without any invalidation (undecided: a validated cache is not followed)
+T("C09", "twin-key-cache-validated-by-position", F, "", "",
+  edits=[(F, INIT_TAIL, INIT_TAIL + "        self._key = None\n        self._key_pos = -1\n"),
+         (F, RN_HEAD, "        if self._key is not None and self._key_pos == self.fh.tell():\n            return self._key\n" + RN_HEAD),
+         (F, READ_TAIL, "        self._key, self._key_pos = nonce, self.fh.tell()\n" + READ_TAIL)])
+# give-back through the view's own relative seek (no cache involved)
+READ_OWN = READ.replace("            self.fh.seek(n - len(data), io.SEEK_CUR)\n", "            self.seek(n - len(data), io.SEEK_CUR)\n")
+T("C09", "twin-giveback-through-own-relative-seek", F, READ, READ_OWN)
+M("C09", "own-relative-seek-giveback-off-by-one", F, READ, READ_OWN.replace("self.seek(n - len(data), io.SEEK_CUR)", "self.seek(n - len(data) + 1, io.SEEK_CUR)"), "C09.R2")
+# ... or is switched off by a validity flag instead of being reset
+T("C09", "twin-key-cache-validity-flag", F, "", "",
+  edits=[(F, INIT_TAIL, INIT_TAIL + "        self._key = b\"\"\n        self._key_valid = False\n"),
+         (F, RN_HEAD, "        if self._key_valid:\n            return self._key\n" + RN_HEAD),
+         (F, SEEK_HEAD, "    def seek(self, offset, whence=io.SEEK_SET):\n        self._key_valid = False\n        if whence == io.SEEK_SET:\n"),
+         (F, READ_TAIL, "        self._key = nonce\n        self._key_valid = not (n > 0 and len(data) > n)\n" + READ_TAIL)])
